@@ -7,11 +7,25 @@ calls the patched `sleep` or returns, then hands control back to the scheduler,
 which picks the task with the earliest wake-up time (FIFO among equal times),
 sets the virtual clock to that time and resumes it.  Nothing ever waits on the
 wall clock and the interleaving is a function of the inputs only.
+
+Interleaving inside an activation (optional, seed C17-11).  A task may carry a
+*cut plan* {activation index k: n}: during its k-th activation (k = 0: from the
+start of the thread to its first sleep, k >= 1: from the return of the k-th sleep
+to the next one) the task is suspended when it is about to execute its n-th source
+line inside the traced files (`VSched.traced`: path prefixes; line events of
+`sys.settrace`, switched on for that activation only).  A suspended task keeps its
+virtual instant and is resumed after every ordinary task due at that instant
+(priority 1 in the queue), or later when the harness holds it back across one of
+its own actions (`run_until(..., hold_seq=...)`).  A cut that falls inside a
+critical section (a `VLock`, the stand-in for the locks of the code under test, is held) is taken at the
+first line after the lock has been released, so a suspended task never holds a
+lock.  Without cut plans nothing changes: no tracing, same order as before.
 """
 from __future__ import annotations
 
 import heapq
 import itertools
+import sys
 import threading
 
 from .stack import VCLOCK
@@ -22,12 +36,18 @@ class _Abandoned(BaseException):
 
 
 class _Task:
-    def __init__(self, sched, target, args, kwargs, tag):
+    def __init__(self, sched, target, args, kwargs, tag, plan=None):
         self.sched = sched
         self.target = target
         self.args = args
         self.kwargs = kwargs
         self.tag = tag
+        self.plan = dict(plan or {})   # activation index -> line step at which the task is suspended
+        self.activation = 0
+        self.steps = 0                 # traced line events of the current activation
+        self.cut_at = None
+        self.tracing = False
+        self.locks_held = 0
         self.resume = threading.Event()
         self.thread = None
         self.done = False
@@ -39,26 +59,116 @@ class _Task:
         self.resume.wait()
         self.resume.clear()
         try:
+            self._begin_activation(None)
             self.target(*self.args, **self.kwargs)
         except _Abandoned:
             pass
         except BaseException as e:  # reported by the harness, never swallowed
             self.error = e
+        self._end_activation()
         self.done = True
         self.sched.current = None
         self.sched._yielded.set()
+
+
+    # -- line-level suspension (only for activations that have a cut planned) ------
+    def _begin_activation(self, frame):
+        """called in the task's own thread at the start of an activation; frame: the innermost frame of
+        the code under test that is already executing (None at the start of the thread)"""
+        self.steps = 0
+        self.cut_at = self.plan.get(self.activation)
+        if self.cut_at is None and not self.sched.count_steps:
+            return
+        self.tracing = True
+        sys.settrace(self._trace_call)
+        while frame is not None:          # frames that are already running get the line tracer as well
+            if self._traced(frame.f_code):
+                frame.f_trace = self._trace_line
+            frame = frame.f_back
+
+    def _end_activation(self):
+        if self.tracing:
+            sys.settrace(None)
+            self.tracing = False
+            self.sched.activations.append((self.tag, self.activation, self.steps))
+            if self.cut_at is not None:   # the activation had fewer lines than asked for
+                self.sched.cuts.append({"tag": self.tag, "activation": self.activation, "asked": self.cut_at,
+                                        "taken": None, "where": None})
+                self.cut_at = None
+        self.activation += 1
+
+    def _traced(self, code):
+        fn = code.co_filename
+        return any(fn.startswith(p) for p in self.sched.traced)
+
+    def _trace_call(self, frame, event, arg):
+        return self._trace_line if self._traced(frame.f_code) else None
+
+    def _trace_line(self, frame, event, arg):
+        if event == "line" and self.tracing:
+            self.steps += 1
+            if self.cut_at is not None and self.steps >= self.cut_at and self.locks_held == 0:
+                self.sched.cuts.append({"tag": self.tag, "activation": self.activation, "asked": self.cut_at,
+                                        "taken": self.steps, "where": (frame.f_code.co_name, frame.f_lineno)})
+                self.cut_at = None
+                self.sched._preempt(self)
+        return self._trace_line
+
+
+class VLock:
+    """stands in for threading.Lock / RLock of the code under test: the real primitive plus the count of
+    locks the running task holds (a task is never suspended by a cut while it holds one)"""
+
+    def __init__(self, sched_of, real):
+        self._sched_of = sched_of
+        self._real = real
+
+    def _task(self):
+        sched = self._sched_of()
+        return sched.current if sched is not None else None
+
+    def acquire(self, blocking=True, timeout=-1):
+        if not self._real.acquire(False):
+            # tasks run one at a time and none is suspended inside a critical section
+            raise AssertionError("lock of the code under test is held by a suspended task")
+        t = self._task()
+        if t is not None:
+            t.locks_held += 1
+        return True
+
+    def release(self):
+        t = self._task()
+        if t is not None and t.locks_held > 0:
+            t.locks_held -= 1
+        self._real.release()
+
+    def locked(self):
+        return self._real.locked()
+
+    def __enter__(self):
+        self.acquire()
+        return True
+
+    def __exit__(self, *exc):
+        self.release()
+        return False
 
 
 class VSched:
     def __init__(self):
         self._ids = itertools.count()
         self._seq = itertools.count()
-        self.heap = []          # (wake_ms, seq, task)
+        self.heap = []          # (wake_ms, priority (1 = suspended by a cut), seq, task)
         self.current = None     # task that is running now (None: the harness itself)
         self._yielded = threading.Event()
         self.tasks = []
         self.next_tag = None    # tag given to the next started task (set by the harness)
         self.sleeps = []        # (task tag, virtual ms at the call, seconds asked for)
+        self.next_plan = None   # cut plan given to the next started task (set by the harness)
+        self.traced = ()        # path prefixes of the source files in which lines are counted
+        self.count_steps = False  # count the lines of every activation (calibration), without suspending
+        self.cuts = []          # one record per planned cut: where it was taken (None: activation too short)
+        self.activations = []   # (tag, activation index, traced lines) of the traced activations
 
     # -- what the code under test sees ---------------------------------------
     def thread_factory(self):
@@ -66,12 +176,12 @@ class VSched:
 
         class VThread:
             def __init__(self, group=None, target=None, name=None, args=(), kwargs=None, daemon=None):
-                self._task = _Task(sched, target, tuple(args), dict(kwargs or {}), sched.next_tag)
+                self._task = _Task(sched, target, tuple(args), dict(kwargs or {}), sched.next_tag, sched.next_plan)
                 self.daemon = daemon
 
             def start(self):
                 sched.tasks.append(self._task)
-                heapq.heappush(sched.heap, (VCLOCK.ms, next(sched._seq), self._task))
+                heapq.heappush(sched.heap, (VCLOCK.ms, 0, next(sched._seq), self._task))
 
             def join(self, timeout=None):
                 raise RuntimeError("join() is not supported by the virtual scheduler")
@@ -80,6 +190,28 @@ class VSched:
                 return not self._task.done
 
         return VThread
+
+    def spawn(self, target, tag=None, plan=None):
+        """run `target()` as a task that starts at the current virtual instant (used by the harness for a
+        request that is carried out in the caller's thread and may be suspended by a cut)"""
+        task = _Task(self, target, (), {}, tag, plan)
+        self.tasks.append(task)
+        heapq.heappush(self.heap, (VCLOCK.ms, 0, next(self._seq), task))
+        return task
+
+    def mark(self):
+        """queue number: tasks suspended from now on have a number >= mark()"""
+        return next(self._seq)
+
+    def _preempt(self, task):
+        """called from the line tracer in the task's thread: give way, keep the virtual instant"""
+        heapq.heappush(self.heap, (VCLOCK.ms, 1, next(self._seq), task))
+        self.current = None
+        self._yielded.set()
+        task.resume.wait()
+        task.resume.clear()
+        if task.abandoned:
+            raise _Abandoned()
 
     def sleep(self, seconds):
         if seconds < 0:
@@ -92,13 +224,15 @@ class VSched:
         if task is None:            # called by the harness thread (inline use): just advance
             VCLOCK.advance(ms)
             return
-        heapq.heappush(self.heap, (VCLOCK.ms + ms, next(self._seq), task))
+        task._end_activation()
+        heapq.heappush(self.heap, (VCLOCK.ms + ms, 0, next(self._seq), task))
         self.current = None
         self._yielded.set()
         task.resume.wait()
         task.resume.clear()
         if task.abandoned:
             raise _Abandoned()
+        task._begin_activation(sys._getframe(1))
 
     # -- driven by the harness -------------------------------------------------
     def _run_one(self, wake, task):
@@ -115,19 +249,28 @@ class VSched:
             if task.error is not None:
                 raise task.error
 
-    def run_until(self, ms: int):
-        """run every task whose wake-up time is <= ms, then set the clock to ms"""
-        while self.heap and self.heap[0][0] <= ms:
-            wake, _, task = heapq.heappop(self.heap)
+    def run_until(self, ms: int, hold_seq=None, strict=False):
+        """run every task whose wake-up time is <= ms (strict: < ms), then set the clock to ms.
+        hold_seq: tasks suspended by a cut at the instant ms itself with a queue number >= hold_seq stay
+        suspended (the harness is about to act at that instant)"""
+        kept = []
+        while self.heap and (self.heap[0][0] < ms or (self.heap[0][0] == ms and not strict)):
+            entry = heapq.heappop(self.heap)
+            wake, prio, seq, task = entry
+            if hold_seq is not None and prio == 1 and wake == ms and seq >= hold_seq:
+                kept.append(entry)
+                continue
             self._run_one(wake, task)
+        for entry in kept:
+            heapq.heappush(self.heap, entry)
         VCLOCK.ms = max(VCLOCK.ms, ms)
 
     def run_all(self, limit_ms: int):
         """run until no task is left (a task still alive at limit_ms is an error)"""
         while self.heap:
-            wake, _, task = heapq.heappop(self.heap)
+            wake, prio, _, task = heapq.heappop(self.heap)
             if wake > limit_ms:
-                heapq.heappush(self.heap, (wake, next(self._seq), task))
+                heapq.heappush(self.heap, (wake, prio, next(self._seq), task))
                 return False
             self._run_one(wake, task)
         return True
@@ -136,7 +279,7 @@ class VSched:
         """unwind unfinished tasks (their next return from sleep raises); returns how many"""
         n = 0
         while self.heap:
-            _, _, task = heapq.heappop(self.heap)
+            _, _, _, task = heapq.heappop(self.heap)
             if task.done:
                 continue
             n += 1
